@@ -107,11 +107,12 @@ def unit_pkg(hdir, rels, unit):
     return None
 
 
-def prepare_replay(pid, hdir, rel, work):
+def prepare_replay(pid, hdir, rel, work, race=False):
     """Builds one native test binary per package holding every harness unit."""
-    if rel in _replay_bins:
-        return _replay_bins[rel]
-    bdir = os.path.join(work, "replaybin", rel or "root")
+    ck = (rel, race)
+    if ck in _replay_bins:
+        return _replay_bins[ck]
+    bdir = os.path.join(work, "replaybin" + ("-race" if race else ""), rel or "root")
     shutil.rmtree(bdir, ignore_errors=True)
     os.makedirs(bdir)
     overlay = {}
@@ -157,14 +158,14 @@ func TestVerifReplay(t *testing.T) {
     json.dump({"Replace": overlay}, open(os.path.join(bdir, "overlay.json"), "w"), indent=1)
     binp = os.path.join(bdir, "replay.test")
     pkgpath = "./" + rel if rel else "."
-    r = subprocess.run("cd %s && go test -vet=off -c -overlay %s -o %s %s" % (REPO, os.path.join(bdir, "overlay.json"), binp, pkgpath),
+    r = subprocess.run("cd %s && go test -vet=off %s -c -overlay %s -o %s %s" % (REPO, "-race" if race else "", os.path.join(bdir, "overlay.json"), binp, pkgpath),
                        shell=True, capture_output=True, text=True, env=GOENV)
     if r.returncode != 0 or not os.path.exists(binp):
         print("REPLAY-BUILD-FAILED", (r.stdout + r.stderr)[-3000:])
-        _replay_bins[rel] = (None, bdir)
+        _replay_bins[ck] = (None, bdir)
     else:
-        _replay_bins[rel] = (binp, bdir)
-    return _replay_bins[rel]
+        _replay_bins[ck] = (binp, bdir)
+    return _replay_bins[ck]
 
 
 def replay(pid, unit, vio, hdir, rels, idx, work):
@@ -178,7 +179,7 @@ def replay(pid, unit, vio, hdir, rels, idx, work):
     rel = unit_pkg(hdir, rels, unit)
     if rel is None:
         return False, "unit source not found", rdir
-    binp, bdir = prepare_replay(pid, hdir, rel, work)
+    binp, bdir = prepare_replay(pid, hdir, rel, work, race=(vio["kind"] == "barrier"))
     if binp is None:
         return False, "native replay build failed", rdir
     # self-contained copy for later manual replay
@@ -223,6 +224,9 @@ def replay(pid, unit, vio, hdir, rels, idx, work):
     elif kind == "alloc":
         ok = "out of memory" in out or "cannot allocate" in out or "makeslice: len out of range" in out
         detail = "native allocation failed under 3 GB address-space limit" if ok else "native run allocated within limit"
+    elif kind == "barrier":
+        ok = "DATA RACE" in out or "VERIF-ASSERT" in out
+        detail = "race detector reports a data race natively" if "DATA RACE" in out else ("assertion fails natively" if ok else "no data race reported natively")
     elif kind == "fatal":
         ok = "fatal error" in out
         detail = "fatal error natively" if ok else "no fatal error natively"
@@ -323,6 +327,8 @@ def main():
                 partial.append({"unit": key.split("|")[0], "why": "unwinding bound reached (native run terminates): " + st["fails"][0][:200]})
                 continue
             discrepancies.append(st["fails"][0])
+    json.dump([{"key": k, "unit": v["unit"], "kind": v["kind"], "site": v["site"], "msg": v["msg"], "replay": v["replay"]["path"]} for k, v in new_violations],
+              open(os.path.join(work, "confirmed_new.json"), "w"), indent=1)
     for key, v in sorted(known_hits.items()):
         print("KNOWN-FINDING: property=%s %s" % (pid, known_keys[key].get("what", key)))
     for key, v in new_violations:
